@@ -18,6 +18,9 @@
 #include "alloc.h"
 #include "ref_format.h"
 #include "st_format.h"
+#include "st_iostream.h"
+#include "st_stdio.h"
+#include <sstream>
 
 using vf::Ctx;
 using vf::strf;
@@ -37,7 +40,7 @@ static std::string seq_string(uint64_t idx, const unsigned char *alpha, unsigned
 }
 
 // ------------------------------------------------------------------ argument lists
-enum { N_LISTS = 9 };
+enum { N_LISTS = 12 };
 static const char *LIST_NAME[N_LISTS] = {"()",
                                          "(int)",
                                          "(int,const char*)",
@@ -46,10 +49,14 @@ static const char *LIST_NAME[N_LISTS] = {"()",
                                          "(const wchar_t*)",
                                          "(bool)",
                                          "substitute_invalid,(int,const char*)",
-                                         "format_latin_1,(int)"};
+                                         "format_latin_1,(int)",
+                                         "writef(std::wostringstream),(int,const char*)",
+                                         "writef(std::basic_ostringstream<char16_t>),(const wchar_t*)",
+                                         "printf(FILE* memstream),(double,ST::string,char)"};
 // which arguments are integer / character types (the character class applies to those only)
 static const std::vector<bool> LIST_INTEGRAL[N_LISTS] = {{},      {true}, {true, false}, {false, false, true}, {true},
-                                                         {false}, {false}, {true, false}, {true}};
+                                                         {false}, {false}, {true, false}, {true},
+                                                         {true, false}, {false}, {false, false, true}};
 
 static const ST::string g_ststr = ST_LITERAL("st");
 
@@ -65,7 +72,34 @@ static ST::string call_format(int list, const char *f)
     case 5: return ST::format(f, L"w\u00e9");
     case 6: return ST::format(f, true);
     case 7: return ST::format(ST::substitute_invalid, f, 65, "str");
-    default: return ST::format_latin_1(f, 65);
+    case 8: return ST::format_latin_1(f, 65);
+    // other sinks: only the outcome class matters here (what they write is C17's business)
+    case 9: {
+        std::wostringstream os;
+        ST::writef(os, f, 65, "str");
+        return ST::string();
+    }
+    case 10: {
+        std::basic_ostringstream<char16_t> os;
+        ST::writef(os, f, L"w\u00e9");
+        return ST::string();
+    }
+    default: {
+        char *mbuf = nullptr;
+        size_t msize = 0;
+        FILE *mf = open_memstream(&mbuf, &msize);
+        if (!mf) _exit(2);
+        try {
+            ST::printf(mf, f, 1e-5, g_ststr, 'Q');
+        } catch (...) {
+            fclose(mf);
+            free(mbuf);
+            throw;
+        }
+        fclose(mf);
+        free(mbuf);
+        return ST::string();
+    }
     }
 }
 
@@ -209,22 +243,29 @@ static void build(vf::Plan &plan, const vf::Opts &o)
             exit(2);
         }
     }
-    plan.rule = "cases = format strings of the enumerated spaces, each run with all 9 argument lists / routes (the edit stage can reach one string by several edits); non-trivial = the reference parser finds at "
+    plan.rule = "cases = format strings of the enumerated spaces, each run with all 12 argument lists / routes / sinks (the edit stage can reach one string by several edits); non-trivial = the reference parser finds at "
                 "least one field or a malformed/unterminated specifier in the string";
     plan.assumptions = {
         "format strings longer than the stated bounds are covered only by locality of the scanner (1-byte lookahead, strtol on digit runs)",
         "widths / precisions / indices are bounded by the token length (at most 6 digits); larger numbers are resource use, not parsing",
         "over-reads are detected by a PROT_NONE page directly after the terminator (plus ASan in the thorough tier); reads before the start of the block are not trapped",
-        "double argument is 1e-5: only a large precision can trip the separate C13 buffer assertion, reported as assert:format-buffer-too-small"};
+        "the double argument of the token stages is 1e-5; long floating-point renderings (every precision up to the bound, huge / tiny / infinite values) have their own stage",
+        "sinks other than ST::format (format_latin_1, writef to wide streams, printf to a FILE*) are run for their outcome class only; what they write is C17's subject"};
 
+#ifdef VF_C10_REDUCED
+    // sanitizer build of the quick tier: the rendering stages in full, the token spaces to a smaller length
+    const unsigned L20 = 3;
+    const unsigned L8 = 4;
+#else
     const unsigned L20 = 5;
     const unsigned L8 = o.thorough() ? 8 : 6;
+#endif
 
     plan.stage("null-format-pointer", 1, [](uint64_t, Ctx &c) { check_format(c, nullptr, N_LISTS); },
                [](uint64_t) { return std::string("format = nullptr ; all argument lists"); })
         .case_timeout_s = 5;
 
-    plan.stage(strf("T20^<=%u x 9 argument lists", L20), vf::seq_count(20, L20),
+    plan.stage(strf("T20^<=%u x 12 argument lists / sinks", L20), vf::seq_count(20, L20),
                [L20](uint64_t i, Ctx &c) {
                    std::string s = seq_string(i, TOK20, 20, L20);
                    check_format(c, &s, N_LISTS);
@@ -232,7 +273,7 @@ static void build(vf::Plan &plan, const vf::Opts &o)
                [L20](uint64_t i) { return describe_fmt(seq_string(i, TOK20, 20, L20)); })
         .case_timeout_s = 5;
 
-    plan.stage(strf("T8core^<=%u x 9 argument lists", L8), vf::seq_count(8, L8),
+    plan.stage(strf("T8core^<=%u x 12 argument lists / sinks", L8), vf::seq_count(8, L8),
                [L8](uint64_t i, Ctx &c) {
                    std::string s = seq_string(i, TOK8, 8, L8);
                    check_format(c, &s, N_LISTS);
@@ -248,6 +289,49 @@ static void build(vf::Plan &plan, const vf::Opts &o)
                },
                [](uint64_t i) { return describe_fmt(edited(i)); })
         .case_timeout_s = 5;
+
+    // long renderings: every precision across the formatter's internal buffer sizes, for small / huge / non-finite values
+    {
+        static const double DV[6] = {1e-5, 1.5, 1e70, -1.7976931348623157e308, std::numeric_limits<double>::infinity(), 4.9406564584124654e-324};
+        static const char *DCLS[4] = {"", "f", "e", "E"};
+        static const char *DW[3] = {"", "90", "<_*400"};
+        const unsigned PMAXP = o.thorough() ? 400 : 140;
+        plan.stage(strf("floating-point field: precision 0..%u x {default,f,e,E} x {no width,90,<_*400} x 6 values (format, format_latin_1, writef<wchar_t>)", PMAXP),
+                   (uint64_t)(PMAXP + 2) * 4 * 3 * 6,
+                   [PMAXP](uint64_t i, Ctx &c) {
+                       unsigned pr = (unsigned)vf::take(i, PMAXP + 2), cl = (unsigned)vf::take(i, 4), w = (unsigned)vf::take(i, 3), vi = (unsigned)vf::take(i, 6);
+                       std::string f = std::string("x{") + DW[w] + (pr <= PMAXP ? "." + std::to_string(pr) : std::string()) + DCLS[cl] + "}y";
+                       const char *p = g_arena.place(f.c_str(), f.size() + 1);
+                       double v = DV[vi];
+                       for (int sink = 0; sink < 3; ++sink) {
+                           vf::events_reset();
+                           vf::Outcome oc = vf::guard([&] {
+                               if (sink == 0) (void)ST::format(p, v);
+                               else if (sink == 1) (void)ST::format_latin_1(p, (float)v);
+                               else {
+                                   std::wostringstream os;
+                                   ST::writef(os, p, v);
+                               }
+                           });
+                           VF_COUNT("ops");
+                           VF_COUNT("validated");
+                           if (oc.kind == vf::OK) VF_COUNT("out:string");
+                           else
+                               c.fail(oc.kind == vf::EX_ASSERT ? "assert:" + assert_text(oc.what) : std::string("float-field:unexpected:") + vf::outkind_name(oc.kind),
+                                      strf("format %s of %g (sink %d): %s", vf::vis(f).c_str(), v, sink, oc.str().c_str()));
+                           if (vf::events_total()) {
+                               c.fail(std::string("heap:") + vf::g_alloc.first_event, strf("allocator event while formatting %s of %g", vf::vis(f).c_str(), v));
+                               vf::events_reset();
+                           }
+                       }
+                       c.nontrivial();
+                   },
+                   [PMAXP](uint64_t i) {
+                       unsigned pr = (unsigned)vf::take(i, PMAXP + 2), cl = (unsigned)vf::take(i, 4), w = (unsigned)vf::take(i, 3), vi = (unsigned)vf::take(i, 6);
+                       return strf("x{%s%s%s}y of value #%u", DW[w], pr <= PMAXP ? ("." + std::to_string(pr)).c_str() : "", DCLS[cl], vi);
+                   })
+            .case_timeout_s = 5;
+    }
 
     // every well-formed single field over the full option product (optionally behind a literal, so that the
     // writer already holds text when padding is computed): totality of the *rendering* paths the parser selects
@@ -273,7 +357,7 @@ static void build(vf::Plan &plan, const vf::Opts &o)
             f += "}";
             return f;
         };
-        plan.stage(strf("well-formed field product (align x pad x + x # x width 0..%u x precision x class x leading literal) x 9 argument lists", W - 1),
+        plan.stage(strf("well-formed field product (align x pad x + x # x width 0..%u x precision x class x leading literal) x 12 argument lists / sinks", W - 1),
                    count,
                    [mk](uint64_t i, Ctx &c) {
                        std::string s = mk(i);
